@@ -369,3 +369,13 @@ package keeper
 //@   flag havoc=AfterOperatorKeyRemovalInitiated
 //@   before[C07.iokr.marker] AfterOperatorKeyRemovalInitiated requires get(ctx, "operator", opRemKey(opAccAddr, chainID)) != nil &&
 //@        arg_operator == opAccAddr && arg_chainID == chainID
+
+// C04 / C18 (a slash id is executed at most once - also across a restart): the executed-slash records of the genesis
+// document are imported under the prefix the duplicate check, the reader and the exporter use.
+//@ func (*Keeper).SetAllSlashStates
+//@   flag noframe
+//@   before[C04.sass.prefix,C18.sass.prefix] prefix.NewStore requires arg_prefix == g("x/operator/types.KeyPrefixOperatorSlashInfo")
+//@ loop #1
+//@   invariant true
+//@ loop #2
+//@   invariant true
